@@ -218,6 +218,7 @@ fn execute(prog: Program, wire: bool) -> Outcome {
     let mut out = Outcome { setup_ok: false, wrecs: vec![], srecs: vec![], notes: vec![], finals: vec![], wire, replicated: false };
     let replicated = prog.replicated;
     let w = World::new(if replicated { 2 } else { 1 });
+    maybe_segment(3, false);
     let (dbs, mut admin) = if replicated {
         if w.form_cluster(1_300, 15_000) != Some(0) {
             return out;
